@@ -360,8 +360,7 @@ class ResponderSys:
             shot = [g['rid'] for g in fired
                     if ref.rs[g['rid']].oneshot and g['rid'] != f['rid'] and
                     g['group'] == f['group'] and
-                    ref.rs[g['rid']].path == r.path and
-                    g['created'] < f['created']]
+                    ref.rs[g['rid']].path == r.path]
             if errors:
                 kind = 'resp-missed-dispatch-error'
             elif shot:
@@ -811,7 +810,7 @@ SYSTEMS = {'resp': ResponderSys, 'sysact': SystemActionSys,
 # =============================================================================
 # own BFS driver (histbfs has no close() hook; same contract otherwise)
 
-def _run_history(cls, params, hist, kind=None):
+def _run_history(cls, params, hist):
     """Fresh system, replay hist; -> (system, disagreements of the last op,
     log of all steps)."""
     s = cls(params)
@@ -1031,6 +1030,7 @@ def pattern_work(job):
     lib = _matcher()
     addrs = addresses(job['alen'])
     pairs = 0
+    best = {}
     for idx, p in enumerate(patterns(job['plen'])):
         if idx % job['of'] != job['shard']:
             continue
@@ -1040,10 +1040,19 @@ def pattern_work(job):
             continue
         pairs += len(addrs)
         for kind, a, exp, obs in dis:
+            rank = (len(p) * 100 + len(a), p, a)
+            if kind in best and best[kind] <= rank:
+                acc.nviol += 1          # counted, not the smallest
+                continue
+            best[kind] = rank
             acc.violation(kind, {'part': 'pattern', 'pattern': p,
                                  'address': a}, exp, obs,
-                          f'pattern class {cls}',
-                          size=len(p) * 100 + len(a))
+                          f'pattern class {cls}', size=rank[0],
+                          standalone=(
+                              'from sc3.base._oscmatch import '
+                              'osc_rematch_pattern\n'
+                              f'print(osc_rematch_pattern({p!r}, {a!r}))'
+                              f'  # OSC 1.0: {exp}'))
         acc.case({'part': 'pattern', 'pattern': p},
                  nontrivial=(cls == 'ok' and any(c in p for c in '?*[{')),
                  outcome=[cls, out], steps=len(addrs))
@@ -1258,7 +1267,13 @@ def fault_work(job):
         acc.count('fault_' + cl['class'])
         for kind, exp, ob, detail in dis:
             acc.violation(kind, case, exp, ob, detail,
-                          size=len(hx) * 10 + len(core.canon(origin)))
+                          size=len(hx) * 10 + len(core.canon(origin)),
+                          standalone=(
+                              'from sc3.base._osclib import OscPacket\n'
+                              f'p = OscPacket(bytes.fromhex({hx!r}))  # '
+                              f'{cl["class"]}: {cl.get("why", "")}\n'
+                              'print([(t.message.address, t.message.params)'
+                              ' for t in p.messages])'))
         acc.case(case, nontrivial=(origin[0] != 'base' and len(hx) > 4),
                  outcome=[cl['class'], obs['fired'], obs['over'],
                           sorted({d[0] for d in dis})], steps=2)
@@ -1299,10 +1314,8 @@ def replay(job):
 # =============================================================================
 # known findings predicates
 
-def _last(v):
-    return v['case']['history'][-1]
-
-
+# every defect found so far has a proposed repair in /verif/fixes/C18-*.patch;
+# no open finding is filed, so there is nothing to match here.
 PREDICATES = {}
 
 
